@@ -1,21 +1,36 @@
 (* ---- commands of the C06 driver ---- *)
 (* (byname (nface nnode nedge) areas (shape dims name grid data))
      -> (ok shape dims name grid data) | (err code)   code: 0 index, 1 node, 2 edge, 3 size *)
+let arr_of_sx = function
+  | L [shape; dims; name; grid; data] ->
+      { c06_shape = list_of_sx z_of_sx shape; c06_dims = list_of_sx z_of_sx dims;
+        c06_name = z_of_sx name; c06_grid = z_of_sx grid; c06_data = list_of_sx z_of_sx data }
+  | _ -> failwith "arr_of_sx"
+let counts_of_sx = function
+  | L [nf; nn; ne] -> { c06_nface = z_of_sx nf; c06_nnode = z_of_sx nn; c06_nedge = z_of_sx ne }
+  | _ -> failwith "counts_of_sx"
+let sx_of_result = function
+  | C06_ok r -> L [A "ok"; sx_of_list sx_of_z r.c06_shape; sx_of_list sx_of_z r.c06_dims;
+                   sx_of_z r.c06_name; sx_of_z r.c06_grid; sx_of_list sx_of_z r.c06_data]
+  | C06_index_error -> L [A "err"; A "0"]
+  | C06_node_error -> L [A "err"; A "1"]
+  | C06_edge_error -> L [A "err"; A "2"]
+  | C06_size_error -> L [A "err"; A "3"]
+
+(* explicit dispatch variant (byname = 1: name check first; 0: size dispatch only, the code before 3b40859b) *)
 let cmd_c06 (x : sx) : sx =
   match x with
-  | L [bn; L [nf; nn; ne]; areas; L [shape; dims; name; grid; data]] ->
-      let g = { c06_nface = z_of_sx nf; c06_nnode = z_of_sx nn; c06_nedge = z_of_sx ne } in
-      let a = { c06_shape = list_of_sx z_of_sx shape; c06_dims = list_of_sx z_of_sx dims;
-                c06_name = z_of_sx name; c06_grid = z_of_sx grid; c06_data = list_of_sx z_of_sx data } in
-      (match c06_integrate (bool_of_sx bn) g (list_of_sx z_of_sx areas) a with
-       | C06_ok r -> L [A "ok"; sx_of_list sx_of_z r.c06_shape; sx_of_list sx_of_z r.c06_dims;
-                        sx_of_z r.c06_name; sx_of_z r.c06_grid; sx_of_list sx_of_z r.c06_data]
-       | C06_index_error -> L [A "err"; A "0"]
-       | C06_node_error -> L [A "err"; A "1"]
-       | C06_edge_error -> L [A "err"; A "2"]
-       | C06_size_error -> L [A "err"; A "3"])
+  | L [bn; g; areas; a] ->
+      sx_of_result (c06_integrate (bool_of_sx bn) (counts_of_sx g) (list_of_sx z_of_sx areas) (arr_of_sx a))
   | _ -> failwith "c06: expected (byname (nface nnode nedge) areas (shape dims name grid data))"
+
+(* the model of the current tree: ((nface nnode nedge) areas (shape dims name grid data)) *)
+let cmd_c06_cur (x : sx) : sx =
+  match x with
+  | L [g; areas; a] -> sx_of_result (c06_integrate_cur (counts_of_sx g) (list_of_sx z_of_sx areas) (arr_of_sx a))
+  | _ -> failwith "c06_cur: expected ((nface nnode nedge) areas (shape dims name grid data))"
 
 let commands : (string * (sx -> sx)) list = [
   "c06", cmd_c06;
+  "c06_cur", cmd_c06_cur;
 ]
